@@ -23,7 +23,8 @@ def pkgdir(demo):
 
 
 def main():
-    only = sys.argv[1:]
+    only = [a for a in sys.argv[1:] if not a.startswith('--')]
+    rnd2 = '--round2' in sys.argv
     sh('git -C /repo worktree remove --force %s' % WT)
     shutil.rmtree(WT, ignore_errors=True)
     rc, out = sh('git -C /repo worktree add --detach %s HEAD' % WT)
@@ -31,11 +32,13 @@ def main():
     head = sh('git -C /repo rev-parse --short HEAD')[1].strip()
     summary = []
     for pid in sorted(props):
-        for mn in ('m1', 'm2'):
-            key = '%s-%s' % (pid, mn)
+        for mn in (('m1', 'm2', 'm3') if rnd2 else ('m1', 'm2')):
+            key = '%s-%s%s' % (pid, 'r2' if rnd2 else '', mn)
             if only and key not in only:
                 continue
-            src = '/tmp/seeded/%s/%s' % (pid, mn)
+            src = '/tmp/seeded%s/%s/%s' % ('2' if rnd2 else '', pid, mn)
+            if rnd2 and not os.path.isdir(src):
+                continue
             dst = '/verif/seeded/%s' % key
             demo = os.path.join(src, 'demo_test.go') if os.path.exists(os.path.join(src, 'demo_test.go')) else os.path.join(dst, 'demo_test.go')
             patch = os.path.join(dst, 'patch.diff') if os.path.exists(os.path.join(dst, 'patch.diff')) else os.path.join(src, 'patch.diff')
